@@ -157,6 +157,8 @@ class Run:
         ob = Obligation(name, kind, self.pc, goal, m)
         ob.meta['inputs'] = dict(self.inputs)
         ob.meta['trace'] = list(self.trace)
+        ob.meta['input_values'] = dict(self.ghost.get('_input_values', {}))
+        ob.meta['heap'] = {a: c.copy() for a, c in self.heap.items()}
         self.obligations.append(ob)
         return ob
 
